@@ -4,7 +4,7 @@ SAFETY_KINDS = {"overflow", "div-by-zero", "bounds", "precondition", "shift", "a
 
 PROPS = {
     "C06": {
-        "witness_always": ["common_scaled", "texlang_parse_num"],
+        "witness_always": ["common_scaled", "texlang_parse_num", "stdlib_totality"],
         "witness_bound": {"common_scaled": "print->scan round trip: ALL 2^16 fractions x 9 integer parts x both signs (display_no_units / parse_no_units on the real code); boundary lattices for the arithmetic functions"},
         "level": "proof",
         "verus": ["common_scaled"],
@@ -36,7 +36,7 @@ PROPS["C01"] = {
 }
 PROPS["C20"] = {
     "level": "proof",
-    "verus": ["stdext_groupingmap"],
+    "verus": ["stdext_groupingmap", "stdext_kmp"],
     "kani": [],
     "witness_always": ["stdext_groupingmap"],
     "witness_bound": {"stdext_groupingmap": "scoped map: every history of length <= 6 over 2 keys x 2 values, both backing containers; KMP: every pattern of length <= 6 / text <= 11 over 2 letters and pattern <= 4 / text <= 8 over 3 letters"},
@@ -139,7 +139,7 @@ PROPS["C15"] = {
 
 PROPS["C02"] = {
     "level": "proof",
-    "verus": ["texlang_macro"],
+    "verus": ["texlang_macro", "stdext_kmp"],
     "kani": [],
     "witness_always": ["texlang_macro"],
     "witness_bound": {"texlang_macro": "real VM vs an executable transcription of TeX's macro_call: prefix {none, one token} x parameters {undelimited, delimited by 1-2 tokens, trailing #{} x 1-2 parameters x 10 argument shapes (empty, token, group, several groups, nested groups, leading spaces) x 3-4 replacement texts = 4476 definitions+calls, tokens after the call included"},
@@ -152,9 +152,9 @@ PROPS["C02"] = {
 PROPS["C09"] = {
     "level": "proof",
     "only_kinds": ["overflow", "div-by-zero", "bounds", "precondition", "shift", "assertion", "concrete-counterexample", "kani"],
-    "verus": ["common_scaled", "stdext_groupingmap", "texlang_savestack", "texlang_cmdmap", "stdlib_prefix", "stdlib_cond", "texlang_macro"],
+    "verus": ["common_scaled", "stdext_groupingmap", "stdext_kmp", "texlang_savestack", "texlang_cmdmap", "stdlib_prefix", "stdlib_cond", "texlang_macro"],
     "kani": [],
-    "witness_always": ["texlang_parse_num"],
+    "witness_always": ["texlang_parse_num", "stdlib_totality"],
     "witness_fns": {"texlang_parse_num": ["parse_impl", "parse_constant", "scan_dimen"]},
     "witness_bound": {"texlang_parse_num": "real VM scanners on numbers at and beyond every limit (i32 boundaries in 3 radices, dimensions at +-2^30 sp, character codes incl. surrogates): value or recoverable error, never a panic"},
     "unverified_callers": [
